@@ -511,7 +511,7 @@ def install(reg):
         if isinstance(tnode, ast.Name) and tnode.id == "SolveHandle":
             return vbool(isinstance(v, _SolveHandle))
         if isinstance(tnode, ast.Name) and tnode.id == "DiGraph":
-            return vbool(v.ty == TPNG)
+            return vbool(v.ty == TPNG or (isinstance(v.ty, TObj) and v.ty.name == "PetriNet"))
         return None
     reg.add_hook("isinstance", isinst)
 
@@ -522,3 +522,43 @@ def install(reg):
             return ms
         return None
     reg.add_hook("with_enter", with_enter)
+
+
+# ---------------------------------------------------------------------- variable names of a BooleanNetwork (trappist_async on a network)
+from .externals_aeon import TNetObj, bn_net_of
+VarNamesOf = z3.Function("VarNamesOf", TNetObj.sort(), LNm.sort())     # [bn.get_variable_name(v) for v in bn.variables()]
+_bq = z3.Const("b!vn", TNetObj.sort())
+AX_VARNAMES = [
+    z3.ForAll([_bq], z3.And(LNm.len(VarNamesOf(_bq)) >= 0,
+                            z3.ForAll([_nk], MemName(VarNamesOf(_bq), _nk) == _T.isvar(bn_net_of(_bq), _nk)),
+                            z3.ForAll([_ia, _ib], z3.Implies(z3.And(0 <= _ia, _ia < _ib, _ib < LNm.len(VarNamesOf(_bq))),
+                                                             LNm.at(VarNamesOf(_bq))[_ia] != LNm.at(VarNamesOf(_bq))[_ib]))),
+              patterns=[VarNamesOf(_bq)]),
+]
+TRUSTED["aeon.BooleanNetwork.variables / get_variable_name"] = "the variables of the network in declaration order, each once, with their names"
+
+_install_asp2 = install
+
+
+def install(reg):
+    _install_asp2(reg)
+
+    def comp_whole(eng, e, st, kind, coll):
+        """[bn.get_variable_name(v) for v in bn.variables()]  ->  VarNamesOf(bn)"""
+        if kind != "list" or len(e.generators) != 1 or e.generators[0].ifs:
+            return None
+        g = e.generators[0]
+        it, el = g.iter, e.elt
+        if not (isinstance(it, ast.Call) and isinstance(it.func, ast.Attribute) and it.func.attr == "variables" and not it.args
+                and isinstance(el, ast.Call) and isinstance(el.func, ast.Attribute) and el.func.attr == "get_variable_name"
+                and len(el.args) == 1 and isinstance(el.args[0], ast.Name) and isinstance(g.target, ast.Name) and el.args[0].id == g.target.id
+                and ast.dump(it.func.value) == ast.dump(el.func.value)):
+            return None
+        try:
+            bn = eng.ev(it.func.value, st)
+        except OutOfSubset:
+            return None
+        if bn.ty != TNetObj:
+            return None
+        return Val(LNm, VarNamesOf(bn.t))
+    reg.hooks.setdefault("comprehension_whole", []).insert(0, comp_whole)
